@@ -440,7 +440,9 @@ CLAIMED["C04"] = {
             "decodes back to the height, leaves the sequence lock disabled and the locktime a past timestamp, and is "
             "injective per channel; tied on every captured commitment plus 324 boundary probes of the real "
             "SetStateNumHint/GetStateNumHint.",
-    "note": _PUNISH_NOTE + " Obfuscator derivation (sha256) not modelled.",
+    "note": _PUNISH_NOTE + " Obfuscator derivation (sha256) not modelled. Chain-watcher stage: every revoked "
+            "commitment handed to a real contractcourt chainWatcher over its own early-loaded OpenChannel snapshot is "
+            "recognised as a breach and its real justice tx (real newRetributionInfo/createJusticeTx) validates under txscript.",
     "technique": "Coq invariant proof (ghost-history wrapper over the resync machine) + Coq script-interpreter theorems "
                  "over regenerated templates (T1) + differential harness with the real NewBreachRetribution and script engine",
 }
